@@ -572,6 +572,16 @@ func (t *Terminfo) TParm(s string, p ...interface{}) string {
 			ai, stk = stk.PopInt()
 			stk = stk.Push(ai == 0)
 
+		case 'A': // logical AND
+			bi, stk = stk.PopInt()
+			ai, stk = stk.PopInt()
+			stk = stk.Push(ai != 0 && bi != 0)
+
+		case 'O': // logical OR
+			bi, stk = stk.PopInt()
+			ai, stk = stk.PopInt()
+			stk = stk.Push(ai != 0 || bi != 0)
+
 		case '=': // numeric compare
 			bi, stk = stk.PopInt()
 			ai, stk = stk.PopInt()
